@@ -23,7 +23,7 @@ let rec fill (k : int) (acc : n list) : n list = if k <= 0 then acc else fill (k
 (* ---- C16: op histories ---- *)
 let fault_name f = match f with
   | EFNull -> "NULL" | EFAssert -> "ASSERT" | EFWritePast -> "WRITEPAST" | EFDeadIter -> "DEADITER"
-  | EFIntOverflow -> "INTOVERFLOW" | EFOracle -> "ORACLE"
+  | EFIntOverflow -> "INTOVERFLOW" | EFOracle -> "ORACLE" | EFFuel -> "FUEL"
 
 let parse_hr (s : string) : hr =
   match String.split_on_char ':' s with
